@@ -12,6 +12,11 @@
  *   epochs <maxDictSize> <nbDmers >= 1> <k >= 1> <passes>          -> <num> <size>     (COVER_computeEpochs, vs Train.computeEpochs)
  *   ctx <fast|cover> <d> <split%> <f> <kind>:<nb>:<size>:<seed>     -> ctx res=<ok|err:CLASS|excluded> n=<d-mer count> total=<bytes> train=<bytes of the training part> nbTrain=<n> nbTest=<n>
  *         (FASTCOVER_ctx_init / COVER_ctx_init at function level, vs Train.ctxInit)
+ *   dins <maxSize >= 2> <savings,...|->                             -> pos=<table->pos> items=<candidate:savings,...>   (ZDICT_insertDictItem on candidates that merge with
+ *         nothing, table of exactly maxSize slots; vs Train.insertAll)
+ *   sample kind seg<L>s<S>r<R>: the sample buffer is a stream of T distinct random tokens of L..L+4 bytes, each followed by S fresh random bytes, the whole token list
+ *         repeated R times (T = (total - 64) / (R*(L+2+S))): T distinct recurring segments that cannot be merged - the legacy trainer's candidate table (max(10000, nbSamples,
+ *         capacity/16) slots) fills up when T exceeds it.  Legacy runs end with tbl=<pos>/<entries> (used slots / slots of that table; full when equal).
  * The dictionary must fit the capacity, load on both sides, carry one non-zero ID everywhere, and every sample must round-trip with it. */
 #include "zvh_common.h"
 #include <pthread.h>
@@ -23,6 +28,8 @@
 #include "cover.h"
 size_t zvt_fast_ctx(const void* sb, const size_t* ss, unsigned nb, unsigned d, double split, unsigned f, size_t* nbDmers);
 size_t zvt_cover_ctx(const void* sb, const size_t* ss, unsigned nb, unsigned d, double split, size_t* nbDmers);
+void zvt_dins(unsigned maxSize, const unsigned* sv, unsigned n);
+extern int zvt_watch_legacy; extern unsigned zvt_watch_nb; extern size_t zvt_watch_cap, zvt_tbl_pos, zvt_tbl_entries;
 
 static pthread_mutex_t g_log = PTHREAD_MUTEX_INITIALIZER; static char g_ev[1 << 16]; static size_t g_evlen;
 static pthread_t g_main; static int g_perturb; static __thread unsigned t_rng;
@@ -40,21 +47,30 @@ static void gen_samples(const char* kind, unsigned nb, size_t ssz, unsigned long
     size_t cap = (size_t)nb * (2 * ssz + 80) + 64, pos = 0; unsigned i; unsigned char* b = (unsigned char*)malloc(cap); size_t* sz = (size_t*)malloc((nb ? nb : 1) * sizeof *sz);
     static const char* words[] = { "alpha", "beta", "gamma", "delta", "{\"id\":", ",\"name\":\"", "\"}", "http://", ".com/", "user", "2026-09-", "error", "value=", "\n", " ", "0123" };
     unsigned H = 0, B = 0, P = nb + 16; int const isZero = !strncmp(kind, "zero", 4), isLead = !strncmp(kind, "lead", 4), isPool = isZero || !strcmp(kind, "pool"); unsigned char* pool = NULL;
+    unsigned segL = 0, segS = 0, segR = 0; int const isSeg = !strncmp(kind, "seg", 3) && sscanf(kind + 3, "%us%ur%u", &segL, &segS, &segR) == 3 && segL && segR;
     rs = seed;
     if (isZero) { unsigned pp = 0; sscanf(kind + 4, "%up%u", &H, &pp); if (pp) P = pp; }
     if (isLead) { sscanf(kind + 4, "%ux%u", &H, &B); if (B > 2 * ssz) B = (unsigned)(2 * ssz); }
     if (isPool) { size_t q; pool = (unsigned char*)malloc((size_t)P * 64); for (q = 0; q < (size_t)P * 64; q++) pool[q] = (unsigned char)rnd(); }
     for (i = 0; i < nb; i++) { size_t n = ssz, j = 0;
         if (!strcmp(kind, "empty")) n = 0; else if (!strcmp(kind, "small")) n = rnd() % 8; else if (!strcmp(kind, "mixed")) n = (rnd() % 5 == 0) ? 0 : (rnd() % 4 == 0 ? rnd() % 9 : 1 + rnd() % (unsigned)(2 * ssz + 1));
+        else if (isSeg) n = ssz;
         else if (strcmp(kind, "same")) n = ssz / 2 + rnd() % (unsigned)(ssz + 1);
         if (i < H) n = isLead ? B : ssz;
         if (isZero && i < H) memset(b + pos, 0, n);
+        else if (isSeg) { }                                                   /* filled below, across the sample borders */
         else if (isPool) { while (j < n) { size_t l = 64; if (l > n - j) l = n - j; memcpy(b + pos + j, pool + (size_t)(rnd() % P) * 64, l); j += l; } }
         else if (!strcmp(kind, "same")) { if (i == 0) { while (j < n) { const char* w = words[rnd() % 16]; size_t l = strlen(w); if (l > n - j) l = n - j; memcpy(b + pos + j, w, l); j += l; } } else memcpy(b + pos, b, n); }
         else if (!strcmp(kind, "tiny")) { for (j = 0; j < n; j++) b[pos + j] = (unsigned char)("ab"[rnd() & 1]); }
         else if (!strcmp(kind, "bin") || !strncmp(kind, "off", 3)) { for (j = 0; j < n; j++) b[pos + j] = (unsigned char)rnd(); }
         else { while (j < n) { const char* w = words[rnd() % 16]; size_t l = strlen(w); if (rnd() % 11 == 0) { b[pos + j++] = (unsigned char)('a' + rnd() % 26); continue; } if (l > n - j) l = n - j; memcpy(b + pos + j, w, l); j += l; } }
         sz[i] = n; pos += n; }
+    if (isSeg) {   /* T random tokens, token t of segL + (7t mod 5) bytes (so that the segments' savings differ); the stream is token 0, token 1, .. token T-1, each followed
+                    * by segS fresh random bytes, and that at least R times over */
+        size_t const unit = (size_t)segL + 2 + segS, stride = (size_t)segL + 4; size_t T = (pos > 64 ? pos - 64 : 0) / (unit * segR), p2 = 0, t = 0, q; unsigned char* toks; if (T < 1) T = 1;
+        toks = (unsigned char*)malloc(T * stride); for (q = 0; q < T * stride; q++) toks[q] = (unsigned char)rnd();
+        while (p2 < pos) { size_t l = segL + (7 * t) % 5; if (l > pos - p2) l = pos - p2; memcpy(b + p2, toks + t * stride, l); p2 += l; for (q = 0; q < segS && p2 < pos; q++) b[p2++] = (unsigned char)rnd(); if (++t == T) t = 0; }
+        free(toks); }
     if (!strncmp(kind, "off", 3)) {   /* every sample but the last ones starts with bytes found exactly D bytes before the end of the buffer (= of the content offered to finalize) */
         size_t const D = (size_t)atoi(kind + 3); size_t p2 = 0; for (i = 0; i < nb; i++) { if (D <= pos && p2 + sz[i] + D + 64 <= pos && sz[i] >= 48) memcpy(b + p2, b + pos - D, 48); p2 += sz[i]; } }
     {   /* hand the trainers a buffer of EXACTLY the samples' total size: a read past the last sample hits the sanitizer's redzone */
@@ -114,17 +130,18 @@ int main(void) {
             char* algo = strtok(NULL, " "); size_t cap = (size_t)strtoull(strtok(NULL, " "), NULL, 10); unsigned k = (unsigned)atoi(strtok(NULL, " ")), d = (unsigned)atoi(strtok(NULL, " ")), f = (unsigned)atoi(strtok(NULL, " ")), accel = (unsigned)atoi(strtok(NULL, " ")), steps = (unsigned)atoi(strtok(NULL, " "));
             double split = atoi(strtok(NULL, " ")) / 100.0; unsigned shrink = (unsigned)atoi(strtok(NULL, " ")), threads = (unsigned)atoi(strtok(NULL, " ")), dictID = (unsigned)strtoul(strtok(NULL, " "), NULL, 10); int level = atoi(strtok(NULL, " "));
             char* spec = strtok(NULL, " "); char kind[16]; unsigned nb; size_t ssz; unsigned long long seed; unsigned char* sb; size_t* ss; size_t total; unsigned char* dict; unsigned char* dict2; size_t r, r2 = 0; unsigned long long ch = 0, ch2;
-            const char* det = "na"; char evcopy[1 << 16]; size_t grow, cands;
+            const char* det = "na"; char evcopy[1 << 16]; size_t grow, cands, tblPos, tblEntries;
             g_perturb = atoi(strtok(NULL, " ")); t_rng = (unsigned)strtoul(strtok(NULL, " "), NULL, 10) | 1u;
             sscanf(spec, "%15[^:]:%u:%zu:%llu", kind, &nb, &ssz, &seed);
             gen_samples(kind, nb, ssz, seed, &sb, &ss, &total);
             dict = (unsigned char*)malloc(cap ? cap : 1); dict2 = (unsigned char*)malloc(cap ? cap : 1); g_evlen = 0; g_ev[0] = 0;
             prefill(dict, cap, 0xA5, 1); prefill(dict2, cap, 0x3C, 7); zvt_fill_byte = 0x11; zvt_grow = 0; zvt_cands = 0;   /* stale bytes differ between the two runs */
             if (excluded_shape(algo, split, k, d, f, accel, cap, nb, ss, total)) { printf("res=excluded:%s\n", excluded_shape(algo, split, k, d, f, accel, cap, nb, ss, total)); fflush(stdout); free(sb); free(ss); free(dict); free(dict2); continue; }
+            zvt_watch_legacy = !strcmp(algo, "legacy"); zvt_watch_nb = nb; zvt_watch_cap = cap; zvt_tbl_pos = 0; zvt_tbl_entries = 0;
             alarm(240);
             r = run_algo(algo, dict, cap, sb, ss, nb, total, k, d, f, accel, steps, split, shrink, threads, dictID, level, &ch);
             memcpy(evcopy, g_ev, g_evlen + 1);
-            grow = zvt_grow; cands = zvt_cands;
+            grow = zvt_grow; cands = zvt_cands; tblPos = zvt_tbl_pos; tblEntries = zvt_tbl_entries;
             if (threads <= 1) { void* shift = malloc(1000 + (size_t)(seed % 5000)); zvt_fill_byte = 0xEE; r2 = run_algo(algo, dict2, cap, sb, ss, nb, total, k, d, f, accel, steps, split, shrink, threads, dictID, level, &ch2); free(shift);
                 det = (ZDICT_isError(r) && ZDICT_isError(r2)) || (r == r2 && (ZDICT_isError(r) || !memcmp(dict, dict2, r))) ? "same" : "DIFF"; }
             alarm(0);
@@ -138,9 +155,15 @@ int main(void) {
                     ZSTD_freeCCtx(c); ZSTD_freeDCtx(dc); free(o); free(back); }
                 printf("res=ok:%zu loadC=%s loadD=%s ids=%u,%u,%u,%u hsize=%zu rt=%u/%u det=%s content=%llu ev=%s dict=", r, cd ? "ok" : "null", dd ? "ok" : "null", ZSTD_getDictID_fromDict(dict, r), ZDICT_getDictID(dict, r),
                        cd ? ZSTD_getDictID_fromCDict(cd) : 0, dd ? ZSTD_getDictID_fromDDict(dd) : 0, ZDICT_isError(hs) ? 0 : hs, ok, tried, det, ch, evcopy[0] ? evcopy : "-");
-                if (r <= 8000) zv_puthex(dict, r); else printf("-"); printf(" grow=%zu cands=%zu\n", grow, cands);
+                if (r <= 8000) zv_puthex(dict, r); else printf("-"); printf(" grow=%zu cands=%zu", grow, cands); if (tblEntries) printf(" tbl=%zu/%zu", tblPos, tblEntries); printf("\n");
                 ZSTD_freeCDict(cd); ZSTD_freeDDict(dd); }
             free(sb); free(ss); free(dict); free(dict2);
+        } else if (!strcmp(op, "dins")) {
+            unsigned const maxSize = (unsigned)strtoul(strtok(NULL, " "), NULL, 10); char* list = strtok(NULL, " "); unsigned n = 0, capn = 16; unsigned* sv = (unsigned*)malloc(capn * sizeof *sv); char* sp; char* t;
+            if (list && strcmp(list, "-")) for (t = strtok_r(list, ",", &sp); t; t = strtok_r(NULL, ",", &sp)) { if (n == capn) { capn *= 2; sv = (unsigned*)realloc(sv, capn * sizeof *sv); } sv[n++] = (unsigned)strtoul(t, NULL, 10); }
+            if (maxSize < 2) printf("undefined\n");   /* the trainer's tables have at least DICTLISTSIZE_DEFAULT slots; a one-slot table is not a defined input */
+            else zvt_dins(maxSize, sv, n);
+            free(sv);
         } else if (!strcmp(op, "epochs")) {
             unsigned cap = (unsigned)strtoul(strtok(NULL, " "), NULL, 10), n = (unsigned)strtoul(strtok(NULL, " "), NULL, 10), k = (unsigned)strtoul(strtok(NULL, " "), NULL, 10), passes = (unsigned)strtoul(strtok(NULL, " "), NULL, 10);
             if (n == 0 || k == 0 || passes == 0) printf("undefined\n");   /* the C function divides by zero there: not called */
